@@ -67,6 +67,8 @@ def unit_of(v):
         return z3.Unit(v.t), "obj:" + (v.cls or "")
     if isinstance(v, ZSeq):
         return z3.Unit(v.t), "str"
+    if z3.is_bool(v):
+        return z3.Unit(z3.If(v, I(1), I(0))), "int"      # a bool element in a list modelled as a sequence of integers
     return z3.Unit(v), "int"
 
 
@@ -226,6 +228,15 @@ class GenExec(Exec):
 
     def fact(self, t):
         self.pc.append(t)
+
+    def lookup_name(self, name, fr):
+        try:
+            return super().lookup_name(name, fr)
+        except Unsupported as u:
+            if "unknown name" in str(u) and not fr.spec and name.isidentifier() and not name.startswith("__"):
+                # a name the emitted method never bound: NameError / UnboundLocalError at run time
+                raise PyExc("UnboundLocalError", None)
+            raise
 
     # ---- value plumbing
     def none_use(self, v, what):
